@@ -192,6 +192,10 @@ pub fn tag_cfgs() -> Vec<TagCfg> {
         TagCfg { class: 6, name: "!", tag: t("", "!") },
         TagCfg { class: 6, name: "!!binary", tag: t(CORE, "binary") },
         TagCfg { class: 6, name: "!<tag:example.com,2000:float>", tag: t("tag:example.com,2000:", "float") },
+        // a prefix that extends the core namespace (as `%TAG !e! tag:yaml.org,2002:app/` gives it), a core suffix in another case
+        TagCfg { class: 6, name: "!<tag:yaml.org,2002:app/int>", tag: t("tag:yaml.org,2002:app/", "int") },
+        TagCfg { class: 6, name: "!!app/bool", tag: t(CORE, "app/bool") },
+        TagCfg { class: 6, name: "!!Float", tag: t(CORE, "Float") },
     ]
 }
 
